@@ -1,4 +1,1014 @@
-//! placeholder — written by the builder of the `accounts` half
+//! C20, `accounts` half — two registries checked against plain set / map models:
+//!
+//! 1. the smart-account context-rule registry (`packages/accounts/src/smart_account/storage.rs`)
+//!    through the entry points of the multisig smart-account example (compiled from the working
+//!    tree; every mutating entry point demands the account's own authorization, calls therefore
+//!    run under recording authorization — who may call is not this property's subject);
+//! 2. the RWA compliance module registry (`packages/tokens/src/rwa/compliance/storage.rs`)
+//!    through a thin wrapper contract.
+//!
+//! Oracles (both directions — the property says the registries *are* the sets / maps):
+//! * an operation is accepted exactly when the model admits it: additions of duplicates
+//!   (signer, policy, module, rule fingerprint = context type + signer set + policy set, order
+//!   irrelevant) refused, removals / updates of absent items refused, a rule keeps at least one
+//!   signer or policy, capacity limits hit exactly at the documented constant (seeds at
+//!   limit-1: the last admissible addition succeeds, the next one is refused);
+//! * rule ids strictly increase over everything ever issued (never reused after removal);
+//! * after every accepted step every getter equals the model (lists compared as sets, no element
+//!   twice); refused steps leave storage untouched (engine: failure atomicity).
+
+use soroban_sdk::testutils::Address as _;
+use soroban_sdk::{Address, Bytes, BytesN, Env, IntoVal, Map, String as SString, TryFromVal, Val, Vec as SVec};
+use std::collections::{BTreeMap, BTreeSet};
+use stellar_accounts::smart_account::{ContextRule, ContextRuleType, Signer};
+use stellar_tokens::rwa::compliance::ComplianceHook;
+use vh::auth::{call_mocked, view, CallRes};
 use vh::cli::Runner;
+use vh::engine::{dig, Bounds, StepCtx, Violation, World};
+use vh::ensure;
+use vh::envx;
 use vh::report::Tier;
-pub fn run(_tier: Tier, _r: &mut Runner) {}
+
+#[path = "/repo/examples/multisig-smart-account/account/src/contract.rs"]
+mod multisig;
+#[path = "../../shared/c20_accounts_wrap.rs"]
+mod wrap;
+
+// Documented capacities (doc comments of smart_account/mod.rs and rwa/compliance/mod.rs). They
+// are written down here as literals on purpose: the check is "exactly at the documented number".
+const MAX_CONTEXT_RULES: usize = 15;
+const MAX_SIGNERS: usize = 15;
+const MAX_POLICIES: usize = 5;
+const MAX_MODULES: usize = 20;
+
+const START: u32 = 100;
+
+// =============================================================================================
+// 1. smart-account context rules
+
+/// context types written by operations: 0 Default, 1 CallContract(T1), 2 CreateContract(W);
+/// 3 = CallContract(T2) is only ever queried (must stay empty)
+const CTX_ALL: [u8; 4] = [0, 1, 2, 3];
+const NAMES: [&str; 3] = ["multisig", "n1", "n2"];
+
+#[derive(Clone, Debug, PartialEq, Eq)]
+enum Op {
+    AddRule { ctx: u8, signers: Vec<u8>, policies: Vec<u8>, valid: Option<u32> },
+    RemoveRule(u32),
+    Rename { id: u32, name: u8 },
+    SetValid { id: u32, valid: Option<u32> },
+    AddSigner { id: u32, s: u8 },
+    RemoveSigner { id: u32, s: u8 },
+    AddPolicy { id: u32, p: u8 },
+    RemovePolicy { id: u32, p: u8 },
+}
+
+#[derive(Clone, Debug, PartialEq, Eq, Hash)]
+struct Rule {
+    ctx: u8,
+    name: u8,
+    valid: Option<u32>,
+    signers: BTreeSet<u8>,
+    policies: BTreeSet<u8>,
+}
+
+#[derive(Clone, Debug)]
+struct AModel {
+    rules: BTreeMap<u32, Rule>,
+    /// every id ever handed out
+    issued: BTreeSet<u32>,
+}
+
+impl AModel {
+    fn fingerprint_taken(&self, except: Option<u32>, ctx: u8, s: &BTreeSet<u8>, p: &BTreeSet<u8>) -> bool {
+        self.rules.iter().any(|(id, r)| Some(*id) != except && r.ctx == ctx && r.signers == *s && r.policies == *p)
+    }
+    fn next_unissued(&self) -> u32 {
+        self.issued.iter().next_back().map(|x| x + 1).unwrap_or(0)
+    }
+}
+
+struct Acct {
+    name: &'static str,
+    /// signers / policy contracts in the universe
+    ns: usize,
+    np: usize,
+    /// (seed name, operations applied after construction); construction itself creates rule 0 =
+    /// (Default, [s0], no policy, "multisig")
+    seeds: Vec<(&'static str, Vec<Op>)>,
+    /// `add_context_rule` alphabet: (context type, signer list in call order, policies)
+    adds: Vec<(u8, Vec<u8>, Vec<u8>)>,
+    remove_rule: bool,
+    renames: Vec<u8>,
+    valids: Vec<Option<u32>>,
+    edit_signers: Vec<u8>,
+    edit_policies: Vec<u8>,
+    /// at most this many live rules are addressed by per-rule operations (first / middle / last)
+    max_targets: usize,
+}
+
+struct AInst {
+    e: Env,
+    c: Address,
+    t: [Address; 2],
+    wasm: BytesN<32>,
+    signers: Vec<Signer>,
+    policies: Vec<Address>,
+}
+
+impl AInst {
+    fn ctx(&self, k: u8) -> ContextRuleType {
+        match k {
+            0 => ContextRuleType::Default,
+            1 => ContextRuleType::CallContract(self.t[0].clone()),
+            2 => ContextRuleType::CreateContract(self.wasm.clone()),
+            _ => ContextRuleType::CallContract(self.t[1].clone()),
+        }
+    }
+    fn ctx_idx(&self, c: &ContextRuleType) -> Option<u8> {
+        CTX_ALL.iter().copied().find(|k| self.ctx(*k) == *c)
+    }
+    fn name(&self, k: u8) -> SString {
+        SString::from_str(&self.e, NAMES[k as usize])
+    }
+    fn name_idx(&self, s: &SString) -> Option<u8> {
+        (0..NAMES.len() as u8).find(|k| self.name(*k) == *s)
+    }
+}
+
+fn viol(oracle: &str, detail: String) -> Violation {
+    Violation::new(oracle, detail)
+}
+
+impl Acct {
+    fn exec(&self, i: &AInst, op: &Op) -> CallRes {
+        let e = &i.e;
+        match op {
+            Op::AddRule { ctx, signers, policies, valid } => {
+                let mut sv: SVec<Signer> = SVec::new(e);
+                for s in signers {
+                    sv.push_back(i.signers[*s as usize].clone());
+                }
+                let mut pm: Map<Address, Val> = Map::new(e);
+                for p in policies {
+                    pm.set(i.policies[*p as usize].clone(), 7u32.into_val(e));
+                }
+                let args: SVec<Val> = (i.ctx(*ctx), i.name(1), *valid, sv, pm).into_val(e);
+                call_mocked(e, &i.c, "add_context_rule", args)
+            }
+            Op::RemoveRule(id) => call_mocked(e, &i.c, "remove_context_rule", (*id,).into_val(e)),
+            Op::Rename { id, name } => call_mocked(e, &i.c, "update_context_rule_name", (*id, i.name(*name)).into_val(e)),
+            Op::SetValid { id, valid } => call_mocked(e, &i.c, "update_context_rule_valid_until", (*id, *valid).into_val(e)),
+            Op::AddSigner { id, s } => call_mocked(e, &i.c, "add_signer", (*id, i.signers[*s as usize].clone()).into_val(e)),
+            Op::RemoveSigner { id, s } => call_mocked(e, &i.c, "remove_signer", (*id, i.signers[*s as usize].clone()).into_val(e)),
+            Op::AddPolicy { id, p } => {
+                let param: Val = 7u32.into_val(e);
+                call_mocked(e, &i.c, "add_policy", (*id, i.policies[*p as usize].clone(), param).into_val(e))
+            }
+            Op::RemovePolicy { id, p } => call_mocked(e, &i.c, "remove_policy", (*id, i.policies[*p as usize].clone()).into_val(e)),
+        }
+    }
+
+    /// What the set / map semantics of the property statement say about `op` in model state `m`:
+    /// `Ok` = admissible, `Err((oracle, reason))` = has to be refused.
+    fn expect(&self, m: &AModel, op: &Op) -> Result<(), (&'static str, String)> {
+        let absent = |id: &u32| -> Result<&Rule, (&'static str, String)> {
+            m.rules.get(id).ok_or(("absent-refused", format!("rule {id} does not exist")))
+        };
+        match op {
+            Op::AddRule { ctx, signers, policies, .. } => {
+                let s: BTreeSet<u8> = signers.iter().copied().collect();
+                let p: BTreeSet<u8> = policies.iter().copied().collect();
+                if s.len() != signers.len() {
+                    return Err(("duplicate-refused", "the same signer is listed twice".into()));
+                }
+                if s.len() > MAX_SIGNERS {
+                    return Err(("limit-exact", format!("{} signers > {MAX_SIGNERS}", s.len())));
+                }
+                if p.len() > MAX_POLICIES {
+                    return Err(("limit-exact", format!("{} policies > {MAX_POLICIES}", p.len())));
+                }
+                if s.is_empty() && p.is_empty() {
+                    return Err(("min-one-signer-or-policy", "rule without signer and policy".into()));
+                }
+                if m.rules.len() >= MAX_CONTEXT_RULES {
+                    return Err(("limit-exact", format!("{} rules already stored", m.rules.len())));
+                }
+                if m.fingerprint_taken(None, *ctx, &s, &p) {
+                    return Err(("duplicate-fingerprint-refused", "a rule with this context type, signer set and policy set exists".into()));
+                }
+                Ok(())
+            }
+            Op::RemoveRule(id) | Op::Rename { id, .. } | Op::SetValid { id, .. } => absent(id).map(|_| ()),
+            Op::AddSigner { id, s } => {
+                let r = absent(id)?;
+                if r.signers.contains(s) {
+                    return Err(("duplicate-refused", format!("signer s{s} already in rule {id}")));
+                }
+                if r.signers.len() >= MAX_SIGNERS {
+                    return Err(("limit-exact", format!("rule {id} already has {} signers", r.signers.len())));
+                }
+                let mut ns = r.signers.clone();
+                ns.insert(*s);
+                if m.fingerprint_taken(Some(*id), r.ctx, &ns, &r.policies) {
+                    return Err(("duplicate-fingerprint-refused", "the edited rule would equal another rule".into()));
+                }
+                Ok(())
+            }
+            Op::RemoveSigner { id, s } => {
+                let r = absent(id)?;
+                if !r.signers.contains(s) {
+                    return Err(("absent-refused", format!("signer s{s} not in rule {id}")));
+                }
+                if r.signers.len() == 1 && r.policies.is_empty() {
+                    return Err(("min-one-signer-or-policy", "last signer of a rule without policies".into()));
+                }
+                let mut ns = r.signers.clone();
+                ns.remove(s);
+                if m.fingerprint_taken(Some(*id), r.ctx, &ns, &r.policies) {
+                    return Err(("duplicate-fingerprint-refused", "the edited rule would equal another rule".into()));
+                }
+                Ok(())
+            }
+            Op::AddPolicy { id, p } => {
+                let r = absent(id)?;
+                if r.policies.contains(p) {
+                    return Err(("duplicate-refused", format!("policy P{p} already in rule {id}")));
+                }
+                if r.policies.len() >= MAX_POLICIES {
+                    return Err(("limit-exact", format!("rule {id} already has {} policies", r.policies.len())));
+                }
+                let mut np = r.policies.clone();
+                np.insert(*p);
+                if m.fingerprint_taken(Some(*id), r.ctx, &r.signers, &np) {
+                    return Err(("duplicate-fingerprint-refused", "the edited rule would equal another rule".into()));
+                }
+                Ok(())
+            }
+            Op::RemovePolicy { id, p } => {
+                let r = absent(id)?;
+                if !r.policies.contains(p) {
+                    return Err(("absent-refused", format!("policy P{p} not in rule {id}")));
+                }
+                if r.policies.len() == 1 && r.signers.is_empty() {
+                    return Err(("min-one-signer-or-policy", "last policy of a rule without signers".into()));
+                }
+                let mut np = r.policies.clone();
+                np.remove(p);
+                if m.fingerprint_taken(Some(*id), r.ctx, &r.signers, &np) {
+                    return Err(("duplicate-fingerprint-refused", "the edited rule would equal another rule".into()));
+                }
+                Ok(())
+            }
+        }
+    }
+
+    /// Is `op` an addition that fills a capacity to exactly its documented maximum?
+    fn fills_limit(&self, m: &AModel, op: &Op) -> Option<&'static str> {
+        match op {
+            Op::AddRule { signers, policies, .. } => {
+                if m.rules.len() + 1 == MAX_CONTEXT_RULES {
+                    Some("rules")
+                } else if signers.len() == MAX_SIGNERS {
+                    Some("signers")
+                } else if policies.len() == MAX_POLICIES {
+                    Some("policies")
+                } else {
+                    None
+                }
+            }
+            Op::AddSigner { id, .. } => m.rules.get(id).filter(|r| r.signers.len() + 1 == MAX_SIGNERS).map(|_| "signers"),
+            Op::AddPolicy { id, .. } => m.rules.get(id).filter(|r| r.policies.len() + 1 == MAX_POLICIES).map(|_| "policies"),
+            _ => None,
+        }
+    }
+
+    /// Model transition of an accepted operation (`new_id` = id reported for a new rule).
+    fn commit(&self, m: &mut AModel, op: &Op, new_id: Option<u32>) {
+        match op {
+            Op::AddRule { ctx, signers, policies, valid } => {
+                let id = new_id.expect("id of the new rule");
+                m.rules.insert(
+                    id,
+                    Rule {
+                        ctx: *ctx,
+                        name: 1,
+                        valid: *valid,
+                        signers: signers.iter().copied().collect(),
+                        policies: policies.iter().copied().collect(),
+                    },
+                );
+                m.issued.insert(id);
+            }
+            Op::RemoveRule(id) => {
+                m.rules.remove(id);
+            }
+            Op::Rename { id, name } => {
+                if let Some(r) = m.rules.get_mut(id) {
+                    r.name = *name
+                }
+            }
+            Op::SetValid { id, valid } => {
+                if let Some(r) = m.rules.get_mut(id) {
+                    r.valid = *valid
+                }
+            }
+            Op::AddSigner { id, s } => {
+                if let Some(r) = m.rules.get_mut(id) {
+                    r.signers.insert(*s);
+                }
+            }
+            Op::RemoveSigner { id, s } => {
+                if let Some(r) = m.rules.get_mut(id) {
+                    r.signers.remove(s);
+                }
+            }
+            Op::AddPolicy { id, p } => {
+                if let Some(r) = m.rules.get_mut(id) {
+                    r.policies.insert(*p);
+                }
+            }
+            Op::RemovePolicy { id, p } => {
+                if let Some(r) = m.rules.get_mut(id) {
+                    r.policies.remove(p);
+                }
+            }
+        }
+    }
+
+    /// Decode a `ContextRule` answer into universe indices; lists must not repeat an element.
+    fn decode(&self, i: &AInst, v: &Val, what: &str) -> Result<(u32, Rule), Violation> {
+        let cr = ContextRule::try_from_val(&i.e, v).map_err(|_| viol("getter", format!("{what}: answer is not a ContextRule")))?;
+        let ctx = i.ctx_idx(&cr.context_type).ok_or_else(|| viol("getter-vs-model", format!("{what}: context type outside the universe")))?;
+        let name = i.name_idx(&cr.name).ok_or_else(|| viol("getter-vs-model", format!("{what}: name {:?} was never given", cr.name)))?;
+        let mut signers = BTreeSet::new();
+        for s in cr.signers.iter() {
+            let k = i.signers.iter().position(|x| *x == s).ok_or_else(|| viol("getter-vs-model", format!("{what}: signer outside the universe")))?;
+            ensure!(signers.insert(k as u8), "each-element-once", "{what}: signer s{k} listed twice in rule {}", cr.id);
+        }
+        let mut policies = BTreeSet::new();
+        for p in cr.policies.iter() {
+            let k = i.policies.iter().position(|x| *x == p).ok_or_else(|| viol("getter-vs-model", format!("{what}: policy outside the universe")))?;
+            ensure!(policies.insert(k as u8), "each-element-once", "{what}: policy P{k} listed twice in rule {}", cr.id);
+        }
+        Ok((cr.id, Rule { ctx, name, valid: cr.valid_until, signers, policies }))
+    }
+
+    /// Every getter against the model.
+    fn observe(&self, i: &AInst, m: &AModel, n: &mut u64) -> Result<(), Violation> {
+        let e = &i.e;
+        let cv = view(e, &i.c, "get_context_rules_count", SVec::new(e)).map_err(|x| viol("getter", format!("get_context_rules_count: {x:?}")))?;
+        let count = u32::try_from_val(e, &cv).map_err(|_| viol("getter", "count is not u32".into()))?;
+        *n += 1;
+        ensure!(count as usize == m.rules.len(), "getter-vs-model", "get_context_rules_count = {count}, model holds {} rules {:?}", m.rules.len(), m.rules.keys());
+        for k in CTX_ALL {
+            let lv = view(e, &i.c, "get_context_rules", (i.ctx(k),).into_val(e)).map_err(|x| viol("getter", format!("get_context_rules(ctx{k}): {x:?}")))?;
+            let list = SVec::<Val>::try_from_val(e, &lv).map_err(|_| viol("getter", "get_context_rules: not a vector".into()))?;
+            *n += 1;
+            let mut got: BTreeMap<u32, Rule> = BTreeMap::new();
+            for item in list.iter() {
+                let (id, r) = self.decode(i, &item, &format!("get_context_rules(ctx{k})"))?;
+                ensure!(got.insert(id, r).is_none(), "each-element-once", "get_context_rules(ctx{k}) lists rule {id} twice");
+            }
+            let want: BTreeMap<u32, Rule> = m.rules.iter().filter(|(_, r)| r.ctx == k).map(|(a, b)| (*a, b.clone())).collect();
+            ensure!(got == want, "getter-vs-model", "get_context_rules(ctx{k}) = {got:?}, model {want:?}");
+        }
+        for id in 0..=m.next_unissued() {
+            let r = view(e, &i.c, "get_context_rule", (id,).into_val(e));
+            *n += 1;
+            match (r, m.rules.get(&id)) {
+                (Ok(v), Some(want)) => {
+                    let (gid, got) = self.decode(i, &v, &format!("get_context_rule({id})"))?;
+                    ensure!(gid == id && got == *want, "getter-vs-model", "get_context_rule({id}) = id {gid} {got:?}, model {want:?}");
+                }
+                (Err(_), None) => {}
+                (Ok(_), None) => return Err(viol("getter-vs-model", format!("get_context_rule({id}) answers although the model has no such rule"))),
+                (Err(x), Some(want)) => return Err(viol("getter-vs-model", format!("get_context_rule({id}) fails ({x:?}) although the model holds {want:?}"))),
+            }
+        }
+        Ok(())
+    }
+
+    fn targets(&self, m: &AModel) -> (Vec<u32>, Vec<u32>) {
+        let live: Vec<u32> = m.rules.keys().copied().collect();
+        let live = if live.len() > self.max_targets {
+            let mut v = vec![live[0], live[live.len() / 2], live[live.len() - 1]];
+            v.dedup();
+            v.truncate(self.max_targets.max(1));
+            v
+        } else {
+            live
+        };
+        let mut absent = vec![];
+        if let Some(x) = m.issued.iter().find(|x| !m.rules.contains_key(x)) {
+            absent.push(*x); // a removed rule
+        }
+        absent.push(m.next_unissued()); // never existed
+        (live, absent)
+    }
+}
+
+impl World for Acct {
+    type Op = Op;
+    type Model = AModel;
+    type Inst = AInst;
+
+    fn name(&self) -> String {
+        self.name.to_string()
+    }
+    fn seeds(&self) -> usize {
+        self.seeds.len()
+    }
+    fn seed_name(&self, seed: usize) -> String {
+        self.seeds[seed].0.to_string()
+    }
+
+    fn fresh(&self, seed: usize) -> (AInst, AModel) {
+        let e = envx::mk_env(START);
+        let t = [Address::generate(&e), Address::generate(&e)];
+        let verifier = Address::generate(&e);
+        let wasm = BytesN::from_array(&e, &[0x57u8; 32]);
+        let mut signers = vec![];
+        for k in 0..self.ns {
+            // every third signer is an external one (verifier contract + key bytes)
+            if k % 3 == 2 {
+                signers.push(Signer::External(verifier.clone(), Bytes::from_array(&e, &[k as u8; 8])));
+            } else {
+                signers.push(Signer::Delegated(Address::generate(&e)));
+            }
+        }
+        let mut policies = vec![];
+        for _ in 0..self.np {
+            policies.push(e.register(wrap::NopPolicy, ()));
+        }
+        let mut sv: SVec<Signer> = SVec::new(&e);
+        sv.push_back(signers[0].clone());
+        let pm: Map<Address, Val> = Map::new(&e);
+        let c = e.register(multisig::MultisigContract, (sv, pm));
+        let i = AInst { e, c, t, wasm, signers, policies };
+        let mut m = AModel { rules: BTreeMap::new(), issued: BTreeSet::new() };
+        m.rules.insert(0, Rule { ctx: 0, name: 0, valid: None, signers: [0u8].into(), policies: BTreeSet::new() });
+        m.issued.insert(0);
+        for op in &self.seeds[seed].1 {
+            let r = self.exec(&i, op).unwrap_or_else(|x| panic!("seed {} of {}: {:?} failed: {:?}", self.seeds[seed].0, self.name, op, x));
+            let new_id = match op {
+                Op::AddRule { .. } => Some(ContextRule::try_from_val(&i.e, &r).expect("rule").id),
+                _ => None,
+            };
+            self.commit(&mut m, op, new_id);
+        }
+        (i, m)
+    }
+
+    fn ops(&self, _i: &AInst, m: &AModel, _depth: usize) -> Vec<Op> {
+        let mut v = vec![];
+        for (ctx, s, p) in &self.adds {
+            v.push(Op::AddRule { ctx: *ctx, signers: s.clone(), policies: p.clone(), valid: None });
+        }
+        let (live, absent) = self.targets(m);
+        let all: Vec<u32> = live.iter().chain(absent.iter()).copied().collect();
+        if self.remove_rule {
+            for id in &all {
+                v.push(Op::RemoveRule(*id));
+            }
+        }
+        for id in &all {
+            for name in &self.renames {
+                v.push(Op::Rename { id: *id, name: *name });
+            }
+            for valid in &self.valids {
+                v.push(Op::SetValid { id: *id, valid: *valid });
+            }
+            for s in &self.edit_signers {
+                v.push(Op::AddSigner { id: *id, s: *s });
+                v.push(Op::RemoveSigner { id: *id, s: *s });
+            }
+            for p in &self.edit_policies {
+                v.push(Op::AddPolicy { id: *id, p: *p });
+                v.push(Op::RemovePolicy { id: *id, p: *p });
+            }
+        }
+        v
+    }
+
+    fn kind(&self, op: &Op) -> String {
+        match op {
+            Op::AddRule { .. } => "acct.add_context_rule",
+            Op::RemoveRule(_) => "acct.remove_context_rule",
+            Op::Rename { .. } => "acct.update_name",
+            Op::SetValid { .. } => "acct.update_valid_until",
+            Op::AddSigner { .. } => "acct.add_signer",
+            Op::RemoveSigner { .. } => "acct.remove_signer",
+            Op::AddPolicy { .. } => "acct.add_policy",
+            Op::RemovePolicy { .. } => "acct.remove_policy",
+        }
+        .into()
+    }
+
+    fn apply(&self, i: &mut AInst, op: &Op) {
+        let _ = self.exec(i, op);
+    }
+
+    fn step(&self, i: &mut AInst, m: &mut AModel, op: &Op, cx: &mut StepCtx<Self>) -> Result<bool, Violation> {
+        let expect = self.expect(m, op);
+        let fills = self.fills_limit(m, op);
+        let res = self.exec(i, op);
+        let ok = res.is_ok();
+        match (&expect, ok) {
+            (Err((oracle, why)), true) => {
+                return Err(viol(oracle, format!("{op:?} was accepted although {why}; model before: {:?}", m.rules)));
+            }
+            (Ok(()), false) => {
+                let oracle = if fills.is_some() { "limit-exact" } else { "admissible-refused" };
+                return Err(viol(
+                    oracle,
+                    format!(
+                        "{op:?} was refused ({:?}) although the registry admits it{}; model before: {:?}",
+                        res.as_ref().err(),
+                        fills.map(|f| format!(" (it fills the {f} capacity to exactly its documented maximum)")).unwrap_or_default(),
+                        m.rules
+                    ),
+                ));
+            }
+            (Err((oracle, _)), false) => {
+                cx.stats.count(&format!("acct.refused.{oracle}"), 1);
+                return Ok(false);
+            }
+            (Ok(()), true) => {}
+        }
+        if let Some(f) = fills {
+            cx.stats.count(&format!("acct.accepted-filling-limit.{f}"), 1);
+        }
+        let v = res.expect("ok");
+        let mut new_id = None;
+        if let Op::AddRule { .. } = op {
+            let (id, _) = self.decode(i, &v, "add_context_rule answer")?;
+            if let Some(hi) = m.issued.iter().next_back() {
+                ensure!(id > *hi, "ids-never-reused", "new rule got id {id} although id {hi} had been handed out before (issued so far: {:?})", m.issued);
+            }
+            new_id = Some(id);
+        }
+        self.commit(m, op, new_id);
+        match op {
+            Op::AddRule { .. } | Op::Rename { .. } | Op::SetValid { .. } => {
+                let (id, got) = self.decode(i, &v, "answer of the call")?;
+                let want_id = match op {
+                    Op::Rename { id, .. } | Op::SetValid { id, .. } => *id,
+                    _ => id,
+                };
+                let want = m.rules.get(&want_id);
+                ensure!(id == want_id && Some(&got) == want, "answer-vs-model", "{op:?} answered rule {id} {got:?}, model says rule {want_id} {want:?}");
+            }
+            _ => {}
+        }
+        let mut n = 0u64;
+        self.observe(i, m, &mut n)?;
+        cx.stats.count("acct.getter-comparisons", n);
+        Ok(true)
+    }
+
+    fn key(&self, i: &AInst) -> [u8; 32] {
+        envx::storage_digest(&i.e, false)
+    }
+
+    fn model_key(&self, m: &AModel) -> u64 {
+        // the set of ids ever handed out decides later "never reused" verdicts; an implementation
+        // that derived ids from the live rules would not keep it in storage
+        dig(&m.issued.iter().next_back())
+    }
+
+    fn model_digest(&self, m: &AModel) -> u64 {
+        dig(&m.rules)
+    }
+}
+
+fn acct_worlds(tier: Tier) -> Vec<(Acct, Bounds)> {
+    let th = tier == Tier::Thorough;
+    let mut out = vec![];
+
+    // (a) rule life cycle: ids, count, per-type lists, fingerprints across context types
+    {
+        let mut adds: Vec<(u8, Vec<u8>, Vec<u8>)> = vec![
+            (0, vec![0], vec![]),     // equals the constructor's rule while that one lives
+            (0, vec![0, 1], vec![]),  //
+            (0, vec![1, 0], vec![]),  // same set, other order
+            (1, vec![0], vec![]),     // same signers, other context type: a different rule
+            (1, vec![], vec![0]),     // policy only
+            (2, vec![2], vec![0, 1]), // external signer + two policies
+            (0, vec![], vec![]),      // nothing at all
+            (0, vec![1, 1], vec![]),  // duplicate signer in the call
+        ];
+        if th {
+            adds.extend([(2, vec![0], vec![]), (1, vec![0, 1], vec![]), (1, vec![], vec![1, 0])]);
+        }
+        out.push((
+            Acct {
+                name: "acct-rule-lifecycle",
+                ns: 3,
+                np: 2,
+                seeds: vec![("constructor-rule", vec![]), ("emptied", vec![Op::RemoveRule(0)])],
+                adds,
+                remove_rule: true,
+                renames: if th { vec![1, 2] } else { vec![2] },
+                valids: if th { vec![Some(START + 10), None] } else { vec![Some(START + 10)] },
+                edit_signers: vec![],
+                edit_policies: vec![],
+                max_targets: 8,
+            },
+            Bounds::new(tier.pick(5, 6), tier.pick(15, 200)),
+        ));
+    }
+
+    // (b) signer / policy edits of two or three rules that can collide (same context type) or
+    //     must not collide (different context types)
+    {
+        out.push((
+            Acct {
+                name: "acct-signer-policy-edits",
+                ns: 3,
+                np: 2,
+                seeds: vec![
+                    ("two-default-rules", vec![Op::AddRule { ctx: 0, signers: vec![1], policies: vec![], valid: None }]),
+                    ("default-and-call-rule", vec![Op::AddRule { ctx: 1, signers: vec![1], policies: vec![], valid: None }]),
+                    ("policy-only-rule", vec![Op::AddRule { ctx: 0, signers: vec![], policies: vec![0], valid: None }]),
+                ],
+                adds: vec![(0, vec![0], vec![]), (0, vec![1, 0], vec![]), (0, vec![0], vec![1])],
+                remove_rule: true,
+                renames: vec![],
+                valids: vec![],
+                edit_signers: vec![0, 1, 2],
+                edit_policies: vec![0, 1],
+                max_targets: 3,
+            },
+            Bounds::new(tier.pick(4, 6), tier.pick(15, 200)),
+        ));
+    }
+
+    // (c) MAX_CONTEXT_RULES: 14 rules stored
+    {
+        let mut setup = vec![];
+        let combos: [(u8, Vec<u8>); 13] = [
+            (0, vec![1]),
+            (0, vec![2]),
+            (0, vec![0, 1]),
+            (0, vec![0, 2]),
+            (1, vec![0]),
+            (1, vec![1]),
+            (1, vec![2]),
+            (1, vec![0, 1]),
+            (1, vec![0, 2]),
+            (2, vec![0]),
+            (2, vec![1]),
+            (2, vec![2]),
+            (2, vec![0, 1]),
+        ];
+        for (ctx, s) in combos {
+            setup.push(Op::AddRule { ctx, signers: s, policies: vec![], valid: None });
+        }
+        // second seed: the same 14 rules reached through 15 rules and a removal (count was at the
+        // limit before)
+        let mut setup2 = setup.clone();
+        setup2.push(Op::AddRule { ctx: 2, signers: vec![0, 2], policies: vec![], valid: None });
+        setup2.push(Op::RemoveRule(7));
+        out.push((
+            Acct {
+                name: "acct-limit-rules",
+                ns: 3,
+                np: 1,
+                seeds: vec![("14-rules", setup), ("15-rules-minus-one", setup2)],
+                adds: vec![(2, vec![1, 2], vec![]), (0, vec![], vec![0]), (1, vec![], vec![0]), (0, vec![0], vec![])],
+                remove_rule: true,
+                renames: vec![],
+                valids: vec![],
+                edit_signers: vec![],
+                edit_policies: vec![],
+                max_targets: 3,
+            },
+            Bounds::new(tier.pick(3, 4), tier.pick(10, 60)),
+        ));
+    }
+
+    // (d) MAX_SIGNERS: rule 0 grown to 14 signers
+    {
+        let setup: Vec<Op> = (1..14u8).map(|s| Op::AddSigner { id: 0, s }).collect();
+        out.push((
+            Acct {
+                name: "acct-limit-signers",
+                ns: 17,
+                np: 1,
+                seeds: vec![("rule0-with-14-signers", setup)],
+                adds: vec![
+                    (1, (0..15u8).collect(), vec![]),     // 15 signers at once: admissible
+                    (2, (0..16u8).collect(), vec![]),     // 16: one too many
+                    (2, (1..16u8).rev().collect(), vec![0]), // 15 again, other type, with a policy
+                ],
+                remove_rule: false,
+                renames: vec![],
+                valids: vec![],
+                edit_signers: vec![0, 13, 14, 15, 16],
+                edit_policies: vec![],
+                max_targets: 2,
+            },
+            Bounds::new(tier.pick(3, 4), tier.pick(10, 60)),
+        ));
+    }
+
+    // (e) MAX_POLICIES: rule 0 with 4 policies
+    {
+        let setup: Vec<Op> = (0..4u8).map(|p| Op::AddPolicy { id: 0, p }).collect();
+        out.push((
+            Acct {
+                name: "acct-limit-policies",
+                ns: 2,
+                np: 7,
+                seeds: vec![("rule0-with-4-policies", setup)],
+                adds: vec![
+                    (1, vec![0], (0..5u8).collect()), // 5 policies at once: admissible
+                    (2, vec![0], (0..6u8).collect()), // 6: one too many
+                    (2, vec![], (1..6u8).collect()),  // 5, no signer
+                ],
+                remove_rule: false,
+                renames: vec![],
+                valids: vec![],
+                edit_signers: vec![],
+                edit_policies: vec![0, 3, 4, 5, 6],
+                max_targets: 2,
+            },
+            Bounds::new(tier.pick(3, 4), tier.pick(10, 60)),
+        ));
+    }
+    out
+}
+
+// =============================================================================================
+// 2. RWA compliance module registry
+
+const HOOKS: usize = 5;
+
+fn hook(k: u8) -> ComplianceHook {
+    match k {
+        0 => ComplianceHook::Transferred,
+        1 => ComplianceHook::Created,
+        2 => ComplianceHook::Destroyed,
+        3 => ComplianceHook::CanTransfer,
+        _ => ComplianceHook::CanCreate,
+    }
+}
+
+#[derive(Clone, Debug, PartialEq, Eq)]
+enum COp {
+    Add { hook: u8, m: u8 },
+    Remove { hook: u8, m: u8 },
+}
+
+#[derive(Clone, Debug, Hash)]
+struct CModel {
+    reg: [BTreeSet<u8>; HOOKS],
+}
+
+struct Comp {
+    name: &'static str,
+    /// modules in the universe (all of them are queried)
+    nm: usize,
+    /// (seed name, registrations applied at construction)
+    seeds: Vec<(String, Vec<(u8, u8)>)>,
+    /// (hook, module) pairs operated on
+    alphabet: Vec<(u8, u8)>,
+}
+
+struct CInst {
+    e: Env,
+    c: Address,
+    mods: Vec<Address>,
+}
+
+impl Comp {
+    fn exec(&self, i: &CInst, op: &COp) -> CallRes {
+        let e = &i.e;
+        match op {
+            COp::Add { hook: h, m } => call_mocked(e, &i.c, "add_module_to", (hook(*h), i.mods[*m as usize].clone()).into_val(e)),
+            COp::Remove { hook: h, m } => call_mocked(e, &i.c, "remove_module_from", (hook(*h), i.mods[*m as usize].clone()).into_val(e)),
+        }
+    }
+
+    fn observe(&self, i: &CInst, m: &CModel, n: &mut u64) -> Result<(), Violation> {
+        let e = &i.e;
+        for h in 0..HOOKS as u8 {
+            let lv = view(e, &i.c, "get_modules_for_hook", (hook(h),).into_val(e)).map_err(|x| viol("getter", format!("get_modules_for_hook({:?}): {x:?}", hook(h))))?;
+            let list = SVec::<Address>::try_from_val(e, &lv).map_err(|_| viol("getter", "get_modules_for_hook: not a vector of addresses".into()))?;
+            *n += 1;
+            let mut got = BTreeSet::new();
+            for a in list.iter() {
+                let k = i.mods.iter().position(|x| *x == a).ok_or_else(|| viol("getter-vs-model", format!("get_modules_for_hook({:?}) lists an address outside the universe", hook(h))))?;
+                ensure!(got.insert(k as u8), "each-element-once", "get_modules_for_hook({:?}) lists module M{k} twice", hook(h));
+            }
+            let want = &m.reg[h as usize];
+            ensure!(got == *want, "getter-vs-model", "get_modules_for_hook({:?}) = {got:?}, model {want:?}", hook(h));
+            for k in 0..self.nm as u8 {
+                let bv = view(e, &i.c, "is_module_registered", (hook(h), i.mods[k as usize].clone()).into_val(e))
+                    .map_err(|x| viol("getter", format!("is_module_registered: {x:?}")))?;
+                let b = bool::try_from_val(e, &bv).map_err(|_| viol("getter", "is_module_registered: not a bool".into()))?;
+                *n += 1;
+                ensure!(b == want.contains(&k), "getter-vs-model", "is_module_registered({:?}, M{k}) = {b}, model set {want:?}", hook(h));
+            }
+        }
+        Ok(())
+    }
+}
+
+impl World for Comp {
+    type Op = COp;
+    type Model = CModel;
+    type Inst = CInst;
+
+    fn name(&self) -> String {
+        self.name.to_string()
+    }
+    fn seeds(&self) -> usize {
+        self.seeds.len()
+    }
+    fn seed_name(&self, seed: usize) -> String {
+        self.seeds[seed].0.clone()
+    }
+
+    fn fresh(&self, seed: usize) -> (CInst, CModel) {
+        let e = envx::mk_env(START);
+        let mods: Vec<Address> = (0..self.nm).map(|_| Address::generate(&e)).collect();
+        let c = e.register(wrap::ComplianceReg, ());
+        let i = CInst { e, c, mods };
+        let mut m = CModel { reg: Default::default() };
+        for (h, k) in &self.seeds[seed].1 {
+            self.exec(&i, &COp::Add { hook: *h, m: *k }).unwrap_or_else(|x| panic!("seed {} of {}: add({h},{k}) failed: {x:?}", self.seeds[seed].0, self.name));
+            m.reg[*h as usize].insert(*k);
+        }
+        (i, m)
+    }
+
+    fn ops(&self, _i: &CInst, _m: &CModel, _depth: usize) -> Vec<COp> {
+        let mut v = vec![];
+        for (h, k) in &self.alphabet {
+            v.push(COp::Add { hook: *h, m: *k });
+        }
+        for (h, k) in &self.alphabet {
+            v.push(COp::Remove { hook: *h, m: *k });
+        }
+        v
+    }
+
+    fn kind(&self, op: &COp) -> String {
+        match op {
+            COp::Add { .. } => "comp.add_module_to",
+            COp::Remove { .. } => "comp.remove_module_from",
+        }
+        .into()
+    }
+
+    fn apply(&self, i: &mut CInst, op: &COp) {
+        let _ = self.exec(i, op);
+    }
+
+    fn step(&self, i: &mut CInst, m: &mut CModel, op: &COp, cx: &mut StepCtx<Self>) -> Result<bool, Violation> {
+        let (expect, fills): (Result<(), (&'static str, String)>, bool) = match op {
+            COp::Add { hook: h, m: k } => {
+                let set = &m.reg[*h as usize];
+                if set.contains(k) {
+                    (Err(("duplicate-refused", format!("module M{k} is already registered for {:?}", hook(*h)))), false)
+                } else if set.len() >= MAX_MODULES {
+                    (Err(("limit-exact", format!("{:?} already has {} modules", hook(*h), set.len()))), false)
+                } else {
+                    (Ok(()), set.len() + 1 == MAX_MODULES)
+                }
+            }
+            COp::Remove { hook: h, m: k } => {
+                if m.reg[*h as usize].contains(k) {
+                    (Ok(()), false)
+                } else {
+                    (Err(("absent-refused", format!("module M{k} is not registered for {:?}", hook(*h)))), false)
+                }
+            }
+        };
+        let res = self.exec(i, op);
+        let ok = res.is_ok();
+        match (&expect, ok) {
+            (Err((oracle, why)), true) => return Err(viol(oracle, format!("{op:?} was accepted although {why}; model before: {:?}", m.reg))),
+            (Ok(()), false) => {
+                let oracle = if fills { "limit-exact" } else { "admissible-refused" };
+                return Err(viol(
+                    oracle,
+                    format!(
+                        "{op:?} was refused ({:?}) although the registry admits it{}; model before: {:?}",
+                        res.as_ref().err(),
+                        if fills { " (it fills the hook to exactly the documented maximum of 20 modules)" } else { "" },
+                        m.reg
+                    ),
+                ));
+            }
+            (Err((oracle, _)), false) => {
+                cx.stats.count(&format!("comp.refused.{oracle}"), 1);
+                return Ok(false);
+            }
+            (Ok(()), true) => {}
+        }
+        if fills {
+            cx.stats.count("comp.accepted-filling-limit.modules", 1);
+        }
+        match op {
+            COp::Add { hook: h, m: k } => {
+                m.reg[*h as usize].insert(*k);
+            }
+            COp::Remove { hook: h, m: k } => {
+                m.reg[*h as usize].remove(k);
+            }
+        }
+        let mut n = 0u64;
+        self.observe(i, m, &mut n)?;
+        cx.stats.count("comp.getter-comparisons", n);
+        Ok(true)
+    }
+
+    fn key(&self, i: &CInst) -> [u8; 32] {
+        envx::storage_digest(&i.e, false)
+    }
+
+    fn model_digest(&self, m: &CModel) -> u64 {
+        dig(m)
+    }
+}
+
+fn comp_worlds(tier: Tier) -> Vec<(Comp, Bounds)> {
+    let th = tier == Tier::Thorough;
+    let mut out = vec![];
+    // (a) every hook x {M1, M2, M3} from the empty registry
+    {
+        let mut alphabet = vec![];
+        for h in 0..HOOKS as u8 {
+            for k in 0..3u8 {
+                // quick: the third module only on the first and the last hook
+                if th || k < 2 || h == 0 || h == 4 {
+                    alphabet.push((h, k));
+                }
+            }
+        }
+        out.push((
+            Comp { name: "compliance-modules", nm: 4, seeds: vec![("empty".into(), vec![])], alphabet },
+            Bounds::new(tier.pick(5, 6), tier.pick(15, 200)),
+        ));
+    }
+    // (b) one hook with 19 modules (one seed per hook); a second hook stays empty
+    {
+        let mut seeds = vec![];
+        for h in 0..HOOKS as u8 {
+            seeds.push((format!("{:?}-with-19-modules", hook(h)), (0..19u8).map(|k| (h, k)).collect::<Vec<_>>()));
+        }
+        // the alphabet names hooks relative to nothing: all seeds share it, so every seed also
+        // operates on hooks that are empty
+        let mut alphabet = vec![];
+        for h in 0..HOOKS as u8 {
+            for k in [0u8, 18, 19, 20] {
+                alphabet.push((h, k));
+            }
+        }
+        out.push((Comp { name: "compliance-modules-limit", nm: 22, seeds, alphabet }, Bounds::new(tier.pick(3, 4), tier.pick(10, 100))));
+    }
+    out
+}
+
+// =============================================================================================
+
+pub fn run(tier: Tier, r: &mut Runner) {
+    for (w, b) in acct_worlds(tier) {
+        r.world(&w, &b);
+    }
+    for (w, b) in comp_worlds(tier) {
+        r.world(&w, &b);
+    }
+    if let Some(rep) = r.report() {
+        let all = [
+            "acct.add_context_rule",
+            "acct.remove_context_rule",
+            "acct.update_name",
+            "acct.update_valid_until",
+            "acct.add_signer",
+            "acct.remove_signer",
+            "acct.add_policy",
+            "acct.remove_policy",
+            "comp.add_module_to",
+            "comp.remove_module_from",
+        ];
+        rep.require(&all, &all);
+        rep.require_counter(&[
+            "acct.refused.duplicate-refused",
+            "acct.refused.duplicate-fingerprint-refused",
+            "acct.refused.absent-refused",
+            "acct.refused.min-one-signer-or-policy",
+            "acct.refused.limit-exact",
+            "acct.accepted-filling-limit.rules",
+            "acct.accepted-filling-limit.signers",
+            "acct.accepted-filling-limit.policies",
+            "comp.refused.duplicate-refused",
+            "comp.refused.absent-refused",
+            "comp.refused.limit-exact",
+            "comp.accepted-filling-limit.modules",
+        ]);
+    }
+}
